@@ -25,6 +25,8 @@ func runC06(c *Ctx) {
 		c.Fail("monitor", "harness", "assets", "contact assets rejected: "+err.Error(), nil)
 		return
 	}
+	// as in a session: locations are resolved against the assets
+	env = flows.NewAssetsEnvironment(env, sa.Locations())
 	var qids []string
 	n := c.N(6000, 300000)
 	for i := 0; i < n; i++ {
